@@ -356,9 +356,12 @@ class Body:
         return self._pdefs
 
     def calls(self):
+        """Call terminators of the blocks reachable from the entry over the pruned normal-flow CFG (code behind a constant-false
+        condition, or only reachable by unwinding, does not count as present)."""
+        live = self.reach0
         for bi, b in enumerate(self.blocks):
             t = b["term"]
-            if t["k"] == "Call":
+            if t["k"] == "Call" and bi in live:
                 yield bi, t
 
     def local_name(self, l):
